@@ -21,93 +21,127 @@
       interface ([Hist/PageCacheAbs.v]); the faithful list-level model of
       cache.c and the proof that it satisfies the interface are property C06's.
 
-    Not here: the LKCD block index ([C01_lkcd_index_sound] is C01's; this
-    property ties it end to end only, see design.d/C04.md). *)
+    - the LKCD lazily built index at block level: the split of a block at the
+      32-bit offset limit ([Hist/LkcdSplit.v]); the scan/lookup over the whole
+      index is C01's model and is tied end to end here (engine hist). *)
 From Coq Require Import NArith List Bool.
 From KdV Require Import Base.Wrap64.
 From KdV Require Import Hist.FcacheChunk Hist.FcacheProofs.
 From KdV Require Import Hist.ReadCache Hist.ReadCacheProofs.
 From KdV Require Import Hist.ElfShortcut Hist.ElfShortcutProofs Hist.PageCacheAbs.
+From KdV Require Import Hist.LkcdSplit Hist.LkcdSplitProofs.
 Import ListNotations.
 Local Open Scope N_scope.
 
-(** * File cache *)
+(** * File cache
 
-(** Within the file's pages ([pos + len <= pageceil filesz]) an observed get /
-    pread / get_chunk made after ANY history (any gets, puts, preads, chunks,
-    policy changes, with any replacement, adjacency and failure oracles) returns
-    exactly the file's slice, zero-padded past EOF — or an excused error (BUSY
-    only when a sub-cache is full of references, ERR_SYSTEM only when one of the
-    call's own oracle bits failed or a MAP_FAILED entry is cached) — and never
-    NODATA, whatever the mmap policy in force and whatever was cached. *)
+    [fsz f] / [fdata f] are size and contents of file [f] of the file set
+    ([nfiles <= pgsz], as fcache_new() guarantees); every operation names its file;
+    the cache keys are the C expression [blkpos | fidx].  Within the file's pages an
+    observed get / pread / get_chunk made after ANY history (any files, gets, puts,
+    preads, chunks, policy changes, with any replacement, adjacency and failure
+    oracles) returns exactly the slice of ITS file, zero-padded past EOF — or an
+    excused error (BUSY only when a sub-cache is full of references, ERR_SYSTEM only
+    for a failure of the call's own oracle bits or a cached MAP_FAILED entry) — and
+    never NODATA, whatever the mmap policy in force and whatever was cached.
+    [C04_fcache_beyond_eof]: arbitrary positions; NODATA only beyond the file's pages
+    under ALWAYS / TRY_ONCE; never SIGBUS / out of bounds / out of fuel.
+    [C04_fcache_never_busy_when_balanced], [C04_fcache_refs_balanced]: reference
+    accounting, whatever fails on the way. *)
 Theorem C04_fcache_policy_irrelevant :
-  forall (pgshift order filesz : N) (file : N -> N) (m : machine) (o : FcacheChunk.op),
-    reachable pgshift order filesz file m ->
-    pageceil pgshift filesz <= TWO63 ->
-    in_file pgshift filesz o ->
-    outcome_ok pgshift filesz file (m_st m) o (fst (step pgshift order filesz file true m o)) /\
-    fst (step pgshift order filesz file true m o) <> OutErr ERR_NODATA.
+  forall (pgshift order nfiles : N) (fsz : N -> N) (fdata : N -> N -> N),
+    nfiles <= pgsz pgshift ->
+    forall (m : machine) (o : FcacheChunk.op),
+    reachable pgshift order nfiles fsz fdata m ->
+    op_valid nfiles o ->
+    (forall f : N, f < nfiles -> pageceil pgshift (fsz f) <= TWO63) ->
+    in_file pgshift fsz o ->
+    outcome_ok pgshift fsz fdata (m_st m) o (fst (step pgshift order fsz fdata true true m o)) /\
+    fst (step pgshift order fsz fdata true true m o) <> OutErr ERR_NODATA.
 Proof. exact fcache_policy_irrelevant. Qed.
 Print Assumptions C04_fcache_policy_irrelevant.
 
-(** For arbitrary positions (also beyond the page that contains EOF): the
-    outcome is the zero-padded slice or an excused error; NODATA only beyond the
-    file's pages under policy ALWAYS / TRY_ONCE (see [op_err_ok]); never SIGBUS,
-    never an out-of-bounds access, never out of fuel. *)
 Theorem C04_fcache_beyond_eof :
-  forall (pgshift order filesz : N) (file : N -> N) (m : machine) (o : FcacheChunk.op),
-    reachable pgshift order filesz file m ->
-    outcome_ok pgshift filesz file (m_st m) o (fst (step pgshift order filesz file true m o)).
+  forall (pgshift order nfiles : N) (fsz : N -> N) (fdata : N -> N -> N),
+    nfiles <= pgsz pgshift ->
+    forall (m : machine) (o : FcacheChunk.op),
+    reachable pgshift order nfiles fsz fdata m ->
+    op_valid nfiles o ->
+    outcome_ok pgshift fsz fdata (m_st m) o (fst (step pgshift order fsz fdata true true m o)).
 Proof. exact fcache_beyond_eof. Qed.
 Print Assumptions C04_fcache_beyond_eof.
 
-(** Beyond the file's pages TRY_ONCE's latch IS visible (by design of
-    KDUMP_MMAP_ALWAYS, and only for reads past the page containing EOF, i.e.
-    truncated files): two histories, same observed call, different status. *)
+(** the keys [blkpos | fidx] of the two sub-caches determine file and block *)
+Theorem C04_fcache_key_injective :
+  forall (pgshift order a1 f1 a2 f2 : N),
+    f1 < pgsz pgshift -> f2 < pgsz pgshift ->
+    (N.lor (align_down a1 (pgsz pgshift)) f1 = N.lor (align_down a2 (pgsz pgshift)) f2 ->
+     f1 = f2 /\ align_down a1 (pgsz pgshift) = align_down a2 (pgsz pgshift)) /\
+    (N.lor (align_down a1 (mmapsz pgshift order)) f1 = N.lor (align_down a2 (mmapsz pgshift order)) f2 ->
+     f1 = f2 /\ align_down a1 (mmapsz pgshift order) = align_down a2 (mmapsz pgshift order)).
+Proof.
+  intros. split; [now apply fcache_key_injective_P | now apply fcache_key_injective_M].
+Qed.
+Print Assumptions C04_fcache_key_injective.
+
+(** without the file index in the key of the read-fallback cache a read of
+    file 1 returns file 0's bytes *)
+Example C04_fcache_fb_key_without_fidx_refuted :
+  let fsz := fun _ : N => 16 in
+  let h := [OpPolicy NEVER; OpPread 0 0 4 no_oracle] in
+  let obs := OpPread 1 0 4 no_oracle in
+  let answer := fun key : bool =>
+    fst (step 4 0 fsz ex_files true key
+              (snd (FcacheChunk.run 4 0 fsz ex_files true key (init_machine 2 2) h)) obs) in
+  answer false = OutData (slice 16 (ex_files 0) 0 4) GEmpty /\
+  answer true = OutData (slice 16 (ex_files 1) 0 4) GEmpty /\
+  slice 16 (ex_files 0) 0 4 <> slice 16 (ex_files 1) 0 4.
+Proof. exact fcache_fb_key_without_fidx_refuted. Qed.
+
 Example C04_fcache_try_once_latch_visible_beyond_eof :
-  let obs := OpPread 16 1 no_oracle in
+  let obs := OpPread 0 16 1 no_oracle in
   let after := fun h : list FcacheChunk.op =>
-    snd (FcacheChunk.run 4 0 16 ex_file true (init_machine 2 2) h) in
-  let m1 := after [OpPolicy TRY_ONCE; OpPread 0 1 no_oracle] in
-  let m2 := after [OpPolicy TRY_ONCE; OpPread 16 1 no_oracle] in
-  fst (step 4 0 16 ex_file true m1 obs) = OutErr ERR_NODATA /\
-  fst (step 4 0 16 ex_file true m2 obs) = OutData [0] GEmpty.
+    snd (FcacheChunk.run 4 0 (fun _ => 16) (fun _ => ex_file) true true (init_machine 2 2) h) in
+  let m1 := after [OpPolicy TRY_ONCE; OpPread 0 0 1 no_oracle] in
+  let m2 := after [OpPolicy TRY_ONCE; OpPread 0 16 1 no_oracle] in
+  fst (step 4 0 (fun _ => 16) (fun _ => ex_file) true true m1 obs) = OutErr ERR_NODATA /\
+  fst (step 4 0 (fun _ => 16) (fun _ => ex_file) true true m2 obs) = OutData [0] GEmpty.
 Proof. exact fcache_try_once_latch_visible_beyond_eof. Qed.
 
-(** BUSY cannot happen to a caller that released what it took, when the
-    sub-caches have room for what the call itself holds. *)
 Theorem C04_fcache_never_busy_when_balanced :
-  forall (pgshift order filesz : N) (file : N -> N) (m : machine) (o : FcacheChunk.op),
-    reachable pgshift order filesz file m ->
+  forall (pgshift order nfiles : N) (fsz : N -> N) (fdata : N -> N -> N),
+    nfiles <= pgsz pgshift ->
+    forall (m : machine) (o : FcacheChunk.op),
+    reachable pgshift order nfiles fsz fdata m ->
+    op_valid nfiles o ->
     (forall w : which, nr w (m_st m) = 0) ->
     (forall w : which, own_need pgshift o <= capw w (m_st m)) ->
-    fst (step pgshift order filesz file true m o) <> OutErr ERR_BUSY.
+    fst (step pgshift order fsz fdata true true m o) <> OutErr ERR_BUSY.
 Proof. exact fcache_never_busy_strong. Qed.
 Print Assumptions C04_fcache_never_busy_when_balanced.
 
-(** pread and get_chunk+put_chunk give back every reference and allocation,
-    whatever fails on the way (I/O, mmap, malloc oracles included). *)
 Theorem C04_fcache_refs_balanced :
-  forall (pgshift order filesz : N) (file : N -> N) (m : machine) (o : FcacheChunk.op)
-         (r : FcacheChunk.outcome) (m' : machine),
-    reachable pgshift order filesz file m ->
-    match o with OpPread _ _ _ | OpChunk _ _ _ => True | _ => False end ->
-    step pgshift order filesz file true m o = (r, m') ->
+  forall (pgshift order nfiles : N) (fsz : N -> N) (fdata : N -> N -> N),
+    nfiles <= pgsz pgshift ->
+    forall (m : machine) (o : FcacheChunk.op) (r : FcacheChunk.outcome) (m' : machine),
+    reachable pgshift order nfiles fsz fdata m ->
+    op_valid nfiles o ->
+    match o with OpPread _ _ _ _ | OpChunk _ _ _ _ => True | _ => False end ->
+    step pgshift order fsz fdata true true m o = (r, m') ->
     (forall (w : which) (k : N), rc w k (m_st m') = rc w k (m_st m)) /\
     st_live (m_st m') = st_live (m_st m) /\ m_fces m' = m_fces m /\ m_chunks m' = m_chunks m.
 Proof. exact fcache_refs_balanced_strong. Qed.
 Print Assumptions C04_fcache_refs_balanced.
 
-(** The model distinguishes defect #8: without the EOF clamp a pread that
-    starts below EOF runs into SIGBUS. *)
 Theorem C04_fcache_unrepaired_sigbus :
   exists (filesz pos len : N) (pol : policy),
     pos < filesz /\ (pol = ALWAYS \/ pol = TRY) /\
-    fst (step 4 2 filesz ex_file false
+    fst (step 4 2 (fun _ => filesz) (fun _ => ex_file) false true
            {| m_st := set_policy (init_state 2 2) pol; m_fces := nil; m_chunks := nil |}
-           (OpPread pos len no_oracle)) = OutSigbus.
+           (OpPread 0 pos len no_oracle)) = OutSigbus.
 Proof. exact fcache_unrepaired_sigbus. Qed.
 Print Assumptions C04_fcache_unrepaired_sigbus.
+
 
 (** * addrxlat read cache *)
 
@@ -249,6 +283,74 @@ Theorem C04_elf_shortcut_unrepaired_refuted :
 Proof. exact elf_shortcut_unrepaired_refuted. Qed.
 Print Assumptions C04_elf_shortcut_unrepaired_refuted.
 
+(** * LKCD incremental index: split of a block at the 32-bit offset limit
+
+    Block level ([Hist/LkcdSplit.v]: [split_pfn_block] / [alloc_tail_pfn_block] /
+    [realloc_pfn_offs] / [lookup_pfn_block] + [idx_is_gap] + the offset computation of
+    [get_page_desc]); variants: [pinned] (the snapshot), [repaired] (fixes 82 + 83),
+    [repaired84] (+ fix 84: the tail is cut into runs), [seeded] (the off-by-one copy).
+    For the code as it is now (fix 84): splitting any well-formed block at any split
+    point the scan can produce leaves the lookup of EVERY other page unchanged, the
+    scanned page unindexed, the chain sorted and every block well formed — whatever
+    the order in which the pages entered the block. *)
+Theorem C04_lkcd_split_preserves_lookup :
+  forall (v : variant) (o : oracle) (pre : list block) (b : block) (post : list block)
+         (idx : N) (ch : list block),
+    cut_runs v = true -> keep_gaps v = true ->
+    wf_block b -> 1 <= idx -> idx3 b + idx < PFN_IDX3_SIZE ->
+    follows b idx post -> chain_sorted post ->
+    split_pfn_block v o b idx = SplitOk ch ->
+    (forall j : N, j <> idx3 b + idx ->
+       chain_lookup (pre ++ ch ++ post) j = chain_lookup (pre ++ b :: post) j) /\
+    chain_lookup (ch ++ post) (idx3 b + idx) = LkNone /\
+    chain_sorted (ch ++ post) /\ Forall wf_block ch.
+Proof. exact lkcd_split84_preserves_lookup. Qed.
+Print Assumptions C04_lkcd_split_preserves_lookup.
+
+(** without fix 84 the same holds only when the tail's pages are in file order *)
+Theorem C04_lkcd_split_preserves_lookup_ordered_tail :
+  forall (v : variant) (o : oracle) (pre : list block) (b : block) (post : list block)
+         (idx : N) (ch : list block),
+    copy_literal v = true -> cut_runs v = false -> keep_gaps v = true ->
+    wf_block b -> 1 <= idx -> idx3 b + idx < PFN_IDX3_SIZE ->
+    follows b idx post -> tail_ordered b idx ->
+    split_pfn_block v o b idx = SplitOk ch ->
+    forall j : N, j <> idx3 b + idx ->
+      chain_lookup (pre ++ ch ++ post) j = chain_lookup (pre ++ b :: post) j.
+Proof. exact lkcd_split_preserves_lookup. Qed.
+Print Assumptions C04_lkcd_split_preserves_lookup_ordered_tail.
+
+(** the pinned snapshot: a gap of the tail turns into a bogus offset (fix 83) *)
+Theorem C04_lkcd_split_preserves_lookup_refuted :
+  exists (b : block) (idx : N) (ch : list block) (j : N),
+    wf_block b /\ 1 <= idx /\ idx3 b + idx < PFN_IDX3_SIZE /\ tail_ordered b idx /\
+    split_pfn_block pinned no_failure b idx = SplitOk ch /\
+    j <> idx3 b + idx /\ chain_lookup [b] j = LkNone /\ chain_lookup ch j = LkOff 4294971392.
+Proof. exact lkcd_split_preserves_lookup_refuted. Qed.
+Print Assumptions C04_lkcd_split_preserves_lookup_refuted.
+
+(** fixes 82 + 83 without 84: a tail page that lies before the tail's first page
+    in the file looks up 2^32 too high *)
+Theorem C04_lkcd_split_unordered_tail_refuted :
+  exists (b : block) (idx : N) (ch : list block) (j : N),
+    wf_block b /\ 1 <= idx /\ idx3 b + idx < PFN_IDX3_SIZE /\
+    split_pfn_block repaired no_failure b idx = SplitOk ch /\
+    j <> idx3 b + idx /\
+    chain_lookup [b] j = LkOff 4144 /\ chain_lookup ch j = LkOff 4294971440.
+Proof. exact lkcd_split_unordered_tail_refuted. Qed.
+Print Assumptions C04_lkcd_split_unordered_tail_refuted.
+
+(** the seeded off-by-one in the tail copy (offs[nextidx + idx]) shifts every
+    tail page after the first by one slot *)
+Theorem C04_lkcd_split_seeded_change_refuted :
+  exists ch : list block,
+    wf_block demo_block /\ tail_ordered demo_block 2 /\
+    split_pfn_block seeded no_failure demo_block 2 = SplitOk ch /\
+    map (chain_lookup [demo_block]) [4; 5; 6] = [LkOff 66560; LkOff 66816; LkOff 67072] /\
+    map (chain_lookup ch) [4; 5; 6] = [LkNone; LkOff 66560; LkOff 66816].
+Proof. exact lkcd_split_seeded_change_refuted. Qed.
+Print Assumptions C04_lkcd_split_seeded_change_refuted.
+
 (** * Page cache, over the hit-returns-inserted interface *)
 
 (** For ANY cache [C] with operations get/insert/discard/put, an invariant and
@@ -284,7 +386,7 @@ Theorem C04_pagecache_transparent :
     forall fill : K -> option D,
       (forall a b : K, {a = b} + {a <> b}) ->
       forall ks : list K,
-        Forall2 (fun (k : K) (r : rd D) => r = RBusy \/ r = pure_answer K D fill k) ks
+        Forall2 (fun (k : K) (r : PageCacheAbs.rd D) => r = PageCacheAbs.RBusy \/ r = pure_answer K D fill k) ks
                 (fst (PageCacheAbs.run C H K D get insert discard put fill init ks)) /\
         Good C K D Inv committed fill (snd (PageCacheAbs.run C H K D get insert discard put fill init ks)).
 Proof. exact pagecache_transparent. Qed.
@@ -294,7 +396,7 @@ Print Assumptions C04_pagecache_transparent.
     arbitrary eviction policy *)
 Theorem C04_pagecache_instance :
   forall (cap : nat) (keep : list (N * N) -> N -> bool) (fill : N -> option N) (ks : list N),
-    Forall2 (fun (k : N) (r : rd N) => r = RBusy \/ r = pure_answer N N fill k) ks
+    Forall2 (fun (k : N) (r : PageCacheAbs.rd N) => r = PageCacheAbs.RBusy \/ r = pure_answer N N fill k) ks
       (fst (PageCacheAbs.run ac N N N (a_get cap keep) a_insert
               (fun (c : ac) (_ : N) => c) (fun (c : ac) (_ : N) => c) fill nil ks)).
 Proof. exact instance_transparent. Qed.
@@ -302,19 +404,23 @@ Print Assumptions C04_pagecache_instance.
 
 (** * Non-vacuity: concrete non-trivial states satisfying the hypotheses *)
 Example C04_nonvacuous :
-  (* a file-cache history with held references, then a chunk crossing EOF *)
-  (let h := [OpGet 3 no_oracle; OpPolicy NEVER; OpPread 10 30 no_oracle;
-             OpChunkHold 0 40 {| o_ev := nil; o_mf := nil; o_rf := nil;
-                                 o_adj := [true; true]; o_al := nil |};
+  (* a two-file file-cache history with held references, then a chunk of file 1 crossing EOF *)
+  (let fsz := fun f : N => if f =? 0 then 50 else 40 in
+   let h := [OpGet 0 3 no_oracle; OpPolicy NEVER; OpPread 1 10 30 no_oracle;
+             OpPread 0 10 30 no_oracle;
+             OpChunkHold 0 0 40 {| o_ev := nil; o_mf := nil; o_rf := nil;
+                                   o_adj := [true; true]; o_al := nil |};
              OpPut 0] in
-   let m := snd (FcacheChunk.run 4 1 50 ex_file true (init_machine 6 6) h) in
-   reachable 4 1 50 ex_file m /\
-   in_file 4 50 (OpChunk 5 50 no_oracle) /\
-   fst (step 4 1 50 ex_file true m (OpChunk 5 50 no_oracle)) = OutData (slice 50 ex_file 5 50) Copied /\
+   let m := snd (FcacheChunk.run 4 1 fsz ex_files true true (init_machine 6 6) h) in
+   reachable 4 1 2 fsz ex_files m /\
+   op_valid 2 (OpChunk 1 5 40 no_oracle) /\
+   in_file 4 fsz (OpChunk 1 5 40 no_oracle) /\
+   fst (step 4 1 fsz ex_files true true m (OpChunk 1 5 40 no_oracle)) =
+     OutData (slice 40 (ex_files 1) 5 40) Copied /\
    nref (st_fb (m_st m)) = 3) /\
   (* the abstract page cache instance on a history with a failing fill and an eviction *)
   fst (PageCacheAbs.run ac N N N (a_get 2 (fun (_ : list (N * N)) (_ : N) => false)) a_insert
          (fun (c : ac) (_ : N) => c) (fun (c : ac) (_ : N) => c)
          (fun k : N => if k =? 3 then None else Some (k * 16)) nil [1; 2; 1; 3; 4; 1]) =
-    [ROk 16; ROk 32; ROk 16; RErr; ROk 64; ROk 16].
+    [PageCacheAbs.ROk 16; PageCacheAbs.ROk 32; PageCacheAbs.ROk 16; PageCacheAbs.RErr; PageCacheAbs.ROk 64; PageCacheAbs.ROk 16].
 Proof. split; [exact fcache_nonvacuous | exact instance_run]. Qed.
